@@ -297,8 +297,16 @@ def gen_domain(rng, max_depth=2, dim=None, dep=None, k=None, allow=("bool", "pri
     ctx = Ctx(rng, dep, k, move, dim)
     kind = str(rng.choice(allow))
     log = []
-    if kind == "prim" or (kind in ("rotate",) and dim != 2):
+    if kind == "prim" or (kind in ("rotate",) and dim == 1):
         spec = prim(ctx, center, scale)
+    elif kind == "rotate" and dim == 3:
+        # 3-D rotations exist through the basic constructor only: a constant 3x3 matrix (a composition of rotations
+        # about several axes), optionally about a pivot
+        inner_ctx = Ctx(rng, False, k, None, dim)
+        inner = boolean(inner_ctx, max(0, max_depth - 1), center, scale, envs, nrows, log)
+        spec = {"op": "rotate", "d": inner, "matrix": [float(x) for x in _rot3(rng).reshape(-1)]}
+        if rng.random() < 0.6:
+            spec["around"] = [float(x) for x in (center + rng.uniform(-1, 1, dim) * scale)]
     elif kind == "bool":
         spec = boolean(ctx, max_depth, center, scale, envs, nrows, log)
     elif kind == "translate":
